@@ -710,6 +710,9 @@ def module_grid(tier):
     add("einsum", "matvec-cplxA", expr="matvec", cplx=[True, False])
     add("einsum", "dot-cplxb", expr="dot", cplx=[False, True])
     add("einsum", "quad-cplx", expr="quad", cplx=[True, False, True])
+    # real-typed seeds (1.0, np.ones(n)) on complex outputs, one operand real
+    add("einsum", "dot-cplxb-realseed", expr="dot", cplx=[False, True], real_seed=True, logical_dtype=True, c01_only=True)
+    add("einsum", "matvec-cplxA-realseed", expr="matvec", cplx=[True, False], real_seed=True, logical_dtype=True, c01_only=True)
     for k in MATH:
         if k != "trig1":
             add("mathgeneral", k, expr=k)
